@@ -198,3 +198,51 @@ def fingerprint(B, rename=None):
         return rn(x)
     live = sorted(B.live_blocks())
     return json.dumps([[clean(B.blocks[i]['s']), clean(B.blocks[i]['t'])] for i in live], sort_keys=True)
+
+
+def op_bag(B, rename=None):
+    """Order- and shape-independent summary of a body: the multiset of operations it performs (callees, binary/unary
+    operators with their constant operands, casts, aggregate kinds, constants switched on).  Two bodies with the same
+    bag perform the same operations on renamed locals in some control structure; statement order, temporaries and
+    block layout do not matter."""
+    import re
+    from collections import Counter
+
+    def rn(x):
+        x = str(x)
+        x = re.sub(r'\{closure@[^}]*\}', '{closure}', x)
+        x = re.sub(r'\{closure#\d+\}', '{closure}', x)
+        for a, b in (rename or []):
+            x = x.replace(a, b)
+        return x
+    bag = Counter()
+    for i in sorted(B.live_blocks()):
+        blk = B.blocks[i]
+        for st in blk['s']:
+            if st['k'] != '=':
+                continue
+            rv = st['rv']
+            k = rv['k']
+            if k == 'bin':
+                cs = tuple(sorted(str(o.get('v')) for o in (rv['a'], rv['b']) if o['k'] == 'c' and 'v' in o))
+                bag[('bin', rv['op'], cs)] += 1
+            elif k == 'un':
+                bag[('un', rv['op'])] += 1
+            elif k == 'cast':
+                bag[('cast', rv.get('ck'), rv.get('from'), rv.get('to'))] += 1
+            elif k == 'agg':
+                bag[('agg', rv.get('ak'), rn(rv.get('adt')), rv.get('var'))] += 1
+            elif k == 'use' and rv['op']['k'] == 'c' and ('v' in rv['op'] or 's' in rv['op']):
+                bag[('const', str(rv['op'].get('v', rv['op'].get('s'))))] += 1
+        t = blk['t']
+        if t['k'] == 'call':
+            g = t.get('fn') or {}
+            from .core import callee_of
+            g, r = callee_of(t)
+            cs = tuple(sorted(str(a.get('v', a.get('s'))) for a in t['args'] if a['k'] == 'c' and ('v' in a or 's' in a)))
+            bag[('call', rn(g or r), cs)] += 1
+        elif t['k'] == 'switch':
+            bag[('switch', t.get('dty'), tuple(sorted(v for v, _ in t['cases'])))] += 1
+        elif t['k'] == 'assert':
+            bag[('assert', t.get('msg', ''))] += 1
+    return bag
